@@ -18,7 +18,7 @@ from ..jinja_interp import expr_text
 from .c06 import MAY_RAISE, caught, handlers_around
 from .scenario import NONE, UNKNOWN, TooComplex, V, Walker, private_callees
 
-LEVEL = ("structural clauses: under every assignment of the conditions (those around a loop included, macros read in place) each parsed "
+LEVEL = ("structural clauses: under every assignment of the conditions (those around a loop included, macros read in place, loops over literal tables read round by round) each parsed "
          "response gets exactly one status test, the loop that emits it emits a return, and `return None` only where the plain variants are "
          "not generated (truth tables); the unexpected-status tail "
          "(raise or None) is unconditional and the dedicated error's constructor applies no conversion to the body that can raise; the "
@@ -29,14 +29,17 @@ LEVEL = ("structural clauses: under every assignment of the conditions (those ar
          "by empty_response carries the none source; in the scenarios no content / empty content / no schema every feasible path of the "
          "response parser (scenario walker: abstract None-ness / truthiness of locals, helpers walked with their arguments) ends in "
          "empty_response(...) without reaching property_from_data; construct-or-cast; a failing type check of a union member aborts decoding only when "
-         "nothing can follow it (truth table, flag found by role); _build_response (read as Python from the expanded template: macros and call "
+         "nothing can follow it (decided on the decoder function the union construct macro writes for every list of up to three abstract "
+         "members - known by has-construct / has-type-check only - followed symbolically through the template: loops over literal tables, "
+         "call blocks with parameters, accumulating namespaces included); _build_response (read as Python from the expanded template: macros and call "
          "blocks inlined, literal arguments folded) forwards status, content, headers, parsed; "
          "blocking/asyncio parity; in the scenario of an invalid status key every path ends the iteration with a diagnostic recorded and "
          "no response added; reference resolution converges (shared with C20); the source and the schema of a response come from one media "
          "type (provenance of both followed - locals, tuples, generators, next(), helpers, closures - to every Response(...) the parser "
          "builds); for every property template with a construct macro the union decoder emits the member's construct outside try/except "
-         "only when nothing can follow (template facts x guard truth table); the builder renders each operation's module from that "
-         "operation (shared with C16); the async httpx client is constructed with the arguments of the blocking one.")
+         "only when nothing can follow (template facts x the walked decoders); the builder renders each operation's module from that "
+         "operation (shared with C16); the async httpx client is constructed with the arguments of the blocking one; the document fields "
+         "the response parser reads are not rewritten in place (shared with C02).")
 
 
 # ---- helpers -----------------------------------------------------------------------------------------------------------------
@@ -995,7 +998,9 @@ def run(rep: Report, ctx: Any) -> str:
                       "every path ends the iteration of the responses loop with a diagnostic appended to the endpoint's errors and nothing "
                       "appended to its responses")
     rep.rule("R04.6", "a union member's failing type check raises outside try/except only if it is the last member and no unmodified "
-                      "member can still accept the value")
+                      "member can still accept the value; in the decoder function the union construct macro writes (walked symbolically for "
+                      "every list of up to three abstract members) every member with a construct macro gets its construct once, in order, "
+                      "and the fall-through `return <value>` is written exactly when a member without one exists")
     rep.rule("R04.8", "raising the dedicated error cannot fail itself: every conversion UnexpectedStatus applies to the raw body of an "
                       "undocumented response is total (bytes.decode with a non-raising error handler) or enclosed by a try catching it")
     rep.rule("R04.7", "resolving a $ref'd component response rebinds only `data`: the threaded state and the naming inputs are the same as "
